@@ -1086,6 +1086,11 @@ func (obj *Package) RegisterClass(name string, c Class) {
 	obj.classes[name] = c
 
 	for _, up := range obj.Users {
+		// A class of that name defined in the using package is not
+		// replaced, just as with Use().
+		if xc, has := up.classes[name]; has && xc != nil && xc.Pkg() == up && c.Pkg() != up {
+			continue
+		}
 		up.RegisterClass(name, c)
 	}
 	for _, h := range classHooks {
